@@ -28,6 +28,21 @@ THEOREMS = [
     "PV.C13.linear_any_order_fails",
     "PV.C13.validUtf8_lineStartsOk",
     "PV.C13.codePoints_utf8Encode",
+    # tree level: the located fold (regenerated fold program + LinearLocator overrides)
+    "PV.C13.locHistory_forward",
+    "PV.C13.locHistory_results",
+    "PV.C13.fold_locations_eq_spec",
+    "PV.C13.fold_random_eq_spec",
+    "PV.C13.srcOrdered_inDomain",
+    "PV.C13.fold_linear_eq_random",
+    "PV.C13.locWF_gen",
+    "PV.C13.locHistory_forward_gen",
+    "PV.C13.fold_locations_eq_spec_gen",
+    "PV.C13.fold_linear_eq_random_gen",
+    "PV.C13.fold_requires_order",
+    "PV.C13.fold_any_order_fails",
+    "PV.C13.fstring_concat_pieces",
+    "PV.C13.ordT_node_split",
 ]
 TRUSTED = [
     "Lean 4.33.0 kernel; axioms limited to propext, Classical.choice, Quot.sound",
@@ -36,41 +51,73 @@ TRUSTED = [
     "the code by replaying, through the model, the exact call sequence the real LinearLocator performed while folding "
     "each test program (hook core::source_code::verif_trace behind --cfg rustpython_parser_verif) and by exhaustive "
     "small-scope call sequences on a directly driven locator",
-    "the fold order itself (ast/src/gen/fold.rs + the overrides in ast/src/source_locator.rs) is NOT modelled: it is "
-    "observed through the recorded trace, and every node position it produces is judged by the Python oracle",
+    "the model of the located fold lean/PV/C13/Fold.lean: a generic interpreter (foldLoc) over (a) the fold program "
+    "regenerated on every run from ast/src/gen/fold.rs by tools/c12_translate.py (order of the fold calls, presence of "
+    "will_map_user/map_user; that every field is folded once and put back into the same field is C12's FoldWF, re-proved "
+    "by `decide` here as part of LocWF) and (b) the hand-transcribed overrides of ast/src/source_locator.rs "
+    "(lean/PV/C13/Overrides.lean: fold_stmt_function_def, fold_stmt_async_function_def, fold_stmt_class_def, "
+    "fold_expr_if_exp, fold_expr_dict, fold_expr_call, fold_pattern_match_mapping as Plans; fold_expr_joined_str / "
+    "linear_locate_expr_joined_str / LinearLookaheadLocator in Fold.lean). Tied to the code on every run by the `*-fold` "
+    "streams: on the tree the real parser produced (attached to the request) the driver computes the call history, the "
+    "located trees of both locators, Forward and SrcOrdered, byte-identical with what the real fold did (recorded calls, "
+    "every node's located range from derive(Debug) of the located trees)",
     "memchr2/memrchr2 modelled as first/last index of LF or CR; str::chars().count() on valid UTF-8 = number of "
     "non-continuation bytes; source length < 2^32",
-    "tools/props/c13.py (generators, independent Python reference for row/column), harness/src/bin/pvh_c13.rs "
-    "(incl. its scanner of derive(Debug) output), lean/Drv/C13.lean",
+    "tools/props/c13.py (generators, independent Python reference for row/column), tools/props/c12.py + "
+    "tools/c12_translate.py (Debug text -> generic tree; schema), harness/src/bin/pvh_c13.rs (incl. its scanner of "
+    "derive(Debug) output), lean/Drv/C13.lean; rustpython_parser::parse as the source of trees",
 ]
 PARTIAL = [
-    "the property quantifies over all trees; the theorems quantify over call histories of the locator. That the "
-    "fold of a tree (generated fold + hand-written overrides + look-ahead locator) produces a forward history is a "
-    "hypothesis of linear_eq_spec (Forward), not proved: it is evaluated on the recorded real history of every test "
-    "program (fwd= in the trace answers); it was false for class keywords before starred bases until /repo 505c970",
-    "which location the fold stores in which node is not modelled (finding linear-fstring-concat-piece-range is only "
-    "seen by the oracle on node positions)",
-    "offsets between a CR and its LF are outside linear_eq_spec (InDomain); random_eq_spec covers them",
+    "the tree-level theorems (fold_locations_eq_spec, fold_linear_eq_random, locHistory_forward) hold for every tree "
+    "that is SrcOrdered (ranges laid out in the order LinearLocator::fold visits them, offsets in the domain, f-string "
+    "pieces carrying the range of their JoinedStr). That every tree the PARSER produces is SrcOrdered is not proved (it "
+    "is a statement about the parser, C02's territory): the driver evaluates the Lean predicate on every real tree of "
+    "the `*-fold` streams (evidence: coverage.src_ordered_on_real_trees) and the real side reports the observable "
+    "equivalent (forward, panic-free fold on which both locators agree); all real trees are SrcOrdered except those of "
+    "the two listed findings. SrcOrdered does not follow from C02's rangesOk (which has no cross-field order): "
+    "see design/C13.md",
+    "the property's literal 'whatever order the tree's nodes appear in' is false for the LinearLocator "
+    "(fold_any_order_fails, fold_requires_order): it needs the tree in fold order",
+    "the overrides of ast/src/source_locator.rs are transcribed by hand (not regenerated); a change there shows up as a "
+    "disagreement of the `*-fold` streams",
+    "panics of the fold itself (unreachable!() on a JoinedStr holding something else than Constant/FormattedValue, "
+    "assert_eq! on a Dict with different numbers of keys and values) are `none` in the model and outside SrcOrdered; "
+    "the parser never builds such trees, so they are not exercised",
+    "feature all-nodes-with-ranges is covered by the generic theorems (rangeMode 2 kinds carry a range then) but the "
+    "check only builds the default feature set; with that feature and a BOM the Module node starts at offset 0, before "
+    "the initial cursor, so such trees are not SrcOrdered",
+    "offsets between a CR and its LF are outside linear_eq_spec / SrcOrdered (InDomain); random_eq_spec covers them",
     "source length < 2^32 assumed (OneIndexed saturation not modelled)",
     "release-semantics build flavour (dbg = false) is tied to the code in the thorough tier only",
 ]
 READY = True
-TECHNIQUE = ("Lean 4 theorems over a hand-written byte-level model of both locators + replay of recorded real call "
-             "sequences through the model + independent Python oracle on every node position")
-LEVEL_TEXT = ("Machine-checked Lean 4 theorems, for texts and call histories of every length: the indexed locator "
-              "returns the reference (row, column) on every character-boundary offset; the incremental locator, in "
-              "both build flavours, returns the reference (row, column) at every call of every forward history of "
-              "locate / locate_only / locate_error calls and never panics, hence agrees with the indexed locator; "
-              "locate_only never changes the state; a kernel-checked witness shows the result is wrong (release) or a "
-              "panic (debug) as soon as a history goes backwards, and the full any-order statement is refuted. The "
-              "model is tied to the Rust code on every run by replaying the exact call sequence the real LinearLocator "
-              "performed on each test program and by exhaustive small-scope histories; the real code is additionally "
-              "judged on every node position by an independent Python reference.")
-LEVEL_NOTE = ("Trusted: Lean kernel (axioms propext/Classical.choice/Quot.sound only); fidelity of the hand-written "
-              "locator model as sampled by the correspondence; the fold order is observed, not modelled (Forward is "
-              "checked per recorded history); Rust std contracts (memchr, chars().count(), is_char_boundary); harness, "
-              "hook, generators and the Python reference.")
-RULE = ("request lines sent to the real crates (and, for trace/locseq/spec requests, to the Lean model); distinct = "
+TECHNIQUE = ("Lean 4 theorems over a hand-written byte-level model of both locators and a generic model of the located "
+             "fold (fold program regenerated from ast/src/gen/fold.rs + transcribed LinearLocator overrides), by induction "
+             "over a schema-generic tree for every well-formed fold configuration + `decide` that the regenerated one is "
+             "well-formed; correspondence on recorded real call sequences and located trees; independent Python oracle on "
+             "every node position")
+LEVEL_TEXT = ("Machine-checked Lean 4 theorems. Locators (texts and call histories of every length): the indexed locator "
+              "returns the reference (row, column) on every character-boundary offset; the incremental locator, in both "
+              "build flavours, returns the reference (row, column) at every call of every forward history of locate / "
+              "locate_only / locate_error calls and never panics, hence agrees with the indexed locator; locate_only never "
+              "changes the state. Trees (every size and shape, every fold configuration that is LocWF; the regenerated "
+              "fold program of the 80 real node kinds plus the LinearLocator overrides is shown LocWF by kernel `decide`): "
+              "for every conforming tree that is SrcOrdered, the calls LinearLocator::fold makes form a forward history "
+              "(locHistory_forward), the located tree it returns is the input tree with every range (a, b) replaced by "
+              "(rowCol a, rowCol b) (fold_locations_eq_spec), and it equals the tree RandomLocator::fold returns "
+              "(fold_linear_eq_random); RandomLocator::fold is right on every tree with boundary offsets whatever their "
+              "order (fold_random_eq_spec). Kernel-checked witnesses show what happens otherwise: with the pre-fix fold "
+              "order of class keywords the real class trees are not SrcOrdered and the fold panics (debug) or stores a wrong "
+              "position (release); a tree with exchanged operands refutes the literal any-order statement. The models are "
+              "tied to the Rust code on every run: recorded call sequences replayed through the locator model, and, on "
+              "the tree the real parser produced, the fold model's call history and both located trees compared "
+              "byte-for-byte with the real fold's; the real code is additionally judged on every node position by an "
+              "independent Python reference.")
+LEVEL_NOTE = ("Trusted: Lean kernel (axioms propext/Classical.choice/Quot.sound only); fidelity of the hand-written locator "
+              "model and of the transcribed overrides as sampled by the correspondence; the C12 translator for the "
+              "generated fold; that parser-produced trees are SrcOrdered is evaluated per real tree, not proved; Rust std "
+              "contracts (memchr, chars().count(), is_char_boundary); harness, hook, generators and the Python reference.")
+RULE = ("request lines sent to the real crates (and, for fold/trace/locseq/spec requests, to the Lean model); distinct = "
         "distinct request line; non-trivial = the program has at least one located node / the text is non-empty")
 
 BOM = "\ufeff"
@@ -837,6 +884,7 @@ CORPUS = [
     "a[b:c, d:e:f]\n",
     "del a, b[c]\nassert a, b\nraise A from b\nglobal g\n",
     "import a.b as c, d\nfrom . import (e as f,\n  g)\n",
+    "def f():\n    x = 1\n    def g():\n        nonlocal x\n    return {a for a in b if c}\n",
 ]
 
 # deterministic probes of the listed known findings (never produced by the generators)
@@ -996,12 +1044,17 @@ def _fold_requests(hbin, locate_reqs, outs, jobs, max_cost=None, flavour="d"):
         except (C12.DebugError, IndexError) as e:
             raise RuntimeError(f"Debug text of {unhex(ws[2])[:60]!r} not understood: {e}")
         reqs.append(f"fold {flavour} {ws[1]} {ws[2]} {' '.join(words)}")
+        seen = _state.setdefault("fold_kinds", set())
+        for i, w in enumerate(words):
+            if w == "N":
+                seen.add(int(words[i + 1]))
     return reqs
 
 
 def streams(ctx):
     out = []
     quick = ctx.quick
+    _state.pop("fold_kinds", None)
     for k in ("trees", "src_ordered", "not_src_ordered"):
         ORDERED_STATS[k] = 0
     ORDERED_STATS["not_src_ordered_examples"] = []
@@ -1150,6 +1203,11 @@ def streams(ctx):
         elif i % 5 == 2:
             b = BOM.encode() + b
         srcs.append(b)
+    kinds = _schema_res().schema.kinds
+    seen = _state.get("fold_kinds", set())
+    ctx.extra["fold_model_kind_coverage"] = {
+        "kinds_seen": len(seen), "kinds_total": len(kinds),
+        "kinds_never_seen_before_stdlib": [k for i, k in enumerate(kinds) if i not in seen]}
     located("stdlib", srcs, "corpus",
             note=f"{len(srcs)} files of {os.path.dirname(os.__file__)} (every 5th re-encoded with CRLF, every 5th with a BOM)",
             max_cost=(60_000_000 if quick else 80_000_000), fold_cost=(12_000_000 if quick else 40_000_000),
@@ -1175,7 +1233,11 @@ def search(ctx, disagreements, bins):
                 reqs.append(f"locseq {ws[1]} {ws[2]} {' '.join(h)}")
         elif ws[0] == "spec":
             reqs.append(e["request"])
-    # and the whole small-scope space once more, shorter histories
+    # the directed programs (fold order: a broken translation / model of the fold shows up here as a fold that
+    # panics or stores a wrong position), and the whole small-scope space once more, shorter histories
+    for src in CORPUS:
+        for v in _variants(src):
+            reqs.append(f"locate m {hexs(v)}")
     reqs += _locseq_requests(3, 2)
     outs = core.run_lines([hbin], reqs, jobs=4)
     for rq, o in zip(reqs, outs):
